@@ -56,6 +56,12 @@ func TestWorker(t *testing.T) {
 		dir := os.Getenv("VERIF_REPLAY_DIR")
 		for i := from; i < to; i++ {
 			fmt.Printf("START %d\n", i)
+			if p.Multi != nil {
+				res := p.Multi(t, p, seed, tier, i, dir)
+				res.sim = nil
+				emit("RUN", res)
+				continue
+			}
 			rs := mixSeed(seed, p.Name, i)
 			w := p.Gen(subRng(rs, "world"), tier, i)
 			w.Profile = p.Name
@@ -65,6 +71,12 @@ func TestWorker(t *testing.T) {
 				w2 := p.Gen(subRng(rs, "world"), tier, i)
 				w2.Profile = p.Name
 				res2 := RunOne(t, p, rs, w2, nil, false, true)
+				w3 := p.Gen(subRng(rs, "world"), tier, i)
+				w3.Profile = p.Name
+				res3 := RunOne(t, p, rs, w3, res.sim.Trace, true, true)
+				if res3.Sig != res.Sig || len(res3.Violations) != len(res.Violations) {
+					res.EngineErr = fmt.Sprintf("replay of the recorded trace diverges from the generating run: sig %s vs %s, violations %d vs %d", res.Sig, res3.Sig, len(res.Violations), len(res3.Violations))
+				}
 				if res2.LogHash != res.LogHash || res2.Sig != res.Sig {
 					res.EngineErr = fmt.Sprintf("nondeterministic: %s/%s vs %s/%s", res.LogHash, res.Sig, res2.LogHash, res2.Sig)
 					if os.Getenv("VERIF_DUMP") != "" {
